@@ -33,6 +33,7 @@ import (
 	"strings"
 	"sync"
 	"testing"
+	"time"
 
 	"github.com/AdguardTeam/AdGuardHome/internal/dhcpsvc"
 	"github.com/AdguardTeam/AdGuardHome/internal/filtering"
@@ -82,9 +83,9 @@ type zzC04Variant struct {
 	Global int   `json:"global"` // 4 bits: filtering, safe search, safe browsing, parental
 	W      int   `json:"w"`
 
-	// Spelling probes (a few dedicated tour segments only).
-	MacColon8   bool `json:"maccolon8"`   // spell 8-byte macs with colons, as HardwareAddr.String does
-	NetHostBits bool `json:"nethostbits"` // spell prefixes with (varying) host bits set
+	// MacColon8: spell 8-byte macs with colons, as HardwareAddr.String does
+	// (syntactically also an IPv6 address), instead of dashes.
+	MacColon8 bool `json:"maccolon8"`
 
 	// Zoned: the universe has IPv6 zones (address number = zone<<W | bits):
 	// IPv6 link-local base, whatever V6 says.
@@ -197,25 +198,54 @@ func (c zzC04Conc) cid(n int) (s string) {
 	return fmt.Sprintf("%s-%d", pre, n)
 }
 
-// storedString is the spelling under which client number owner registers the
-// identifier: ClientIDs and macs in a letter case that is a fixed (seeded)
-// function of the owner and the identifier, so two clients spell the same
-// ClientID differently.  Requests and lookups use idString (lower case, as
-// dnsforward lower-cases what it extracts from a request).
-func (c zzC04Conc) storedString(id zzC04ID, owner int) (s string) {
-	s = c.idString(id)
-	if id.K != "cid" && id.K != "mac" {
-		return s
-	}
-	pat := c.mix(owner*131+id.X, 55)
-	b := []byte(s)
-	for i := range b {
-		if b[i] >= 'a' && b[i] <= 'z' && pat&(1<<(i%24)) != 0 {
-			b[i] -= 'a' - 'A'
+// storedStrings are the spellings under which client number owner registers
+// the identifier -- a fixed (seeded) function of the owner and the identifier,
+// so that two clients spell the same identifier differently:
+//
+//   - ClientIDs and macs in some letter case (the code folds case);
+//   - prefixes with host bits set (the code stores the masked network);
+//   - one spelling, or TWO legal spellings of the same identifier in the one
+//     id list (192.168.7.64/26 and 192.168.7.77/26; cli-1 and CLI-1): the
+//     client then owns that one identifier, the abstract id set is a set.
+//
+// Requests and lookups use idString (canonical, lower case: what dnsforward
+// extracts from a request).
+func (c zzC04Conc) storedStrings(id zzC04ID, owner int) (ss []string) {
+	h := owner*131 + id.X*7 + id.Y*3 + len(id.K)
+	alt := func(salt int) (s string) {
+		s = c.idString(id)
+		pat := c.mix(h, salt)
+		switch id.K {
+		case "cid", "mac":
+			b := []byte(s)
+			for i := range b {
+				if b[i] >= 'a' && b[i] <= 'z' && pat&(1<<(i%24)) != 0 {
+					b[i] -= 'a' - 'A'
+				}
+			}
+
+			return string(b)
+		case "net":
+			p := c.prefix(id.X, id.Y)
+			b := p.Addr().AsSlice()
+			b[len(b)-1] |= byte(pat) & byte(0xff>>uint(id.Y))
+			a, _ := netip.AddrFromSlice(b)
+
+			return netip.PrefixFrom(a, p.Bits()).String()
+		default:
+			return s
 		}
 	}
-
-	return string(b)
+	switch c.mix(h, 91) % 4 {
+	case 0:
+		return []string{c.idString(id)}
+	case 1:
+		return []string{alt(55)}
+	case 2:
+		return []string{c.idString(id), alt(55)}
+	default:
+		return []string{alt(55), alt(56)}
+	}
 }
 
 // idString renders an identifier the way a user would type it.
@@ -365,7 +395,31 @@ type zzC04Rig struct {
 
 var zzC04InitOnce sync.Once
 
-func zzC04NewRig(tb testing.TB, dir string, gVals [4]bool, gSvcs []string) (r *zzC04Rig) {
+// zzC04Weekly builds a blocked-services schedule by the state it is in NOW:
+// "none" has no pause window at all, "in" pauses all week, "out" has a window
+// on the weekday three days from now (UTC) and so does not pause now.
+func zzC04Weekly(kind string) (w *schedule.Weekly) {
+	switch kind {
+	case "in":
+		return schedule.FullWeekly()
+	case "out":
+		day := []string{"sun", "mon", "tue", "wed", "thu", "fri", "sat"}[(int(time.Now().UTC().Weekday())+3)%7]
+		w = &schedule.Weekly{}
+		err := json.Unmarshal([]byte(fmt.Sprintf(`{"time_zone":"UTC","%s":{"start":3600000,"end":7200000}}`, day)), w)
+		if err != nil {
+			panic(fmt.Sprintf("building a schedule: %v", err))
+		}
+		if w.Contains(time.Now()) {
+			panic("the out-of-window schedule contains now")
+		}
+
+		return w
+	default:
+		return schedule.EmptyWeekly()
+	}
+}
+
+func zzC04NewRig(tb testing.TB, dir string, gVals [4]bool, gSvcs []string, gSched string) (r *zzC04Rig) {
 	zzC04InitOnce.Do(filtering.InitModule)
 
 	r = &zzC04Rig{
@@ -383,7 +437,7 @@ func zzC04NewRig(tb testing.TB, dir string, gVals [4]bool, gSvcs []string) (r *z
 			r.st.ApplyClientFiltering(id, addr, setts)
 		},
 		BlockedServices: &filtering.BlockedServices{
-			Schedule: schedule.EmptyWeekly(),
+			Schedule: zzC04Weekly(gSched),
 			IDs:      gSvcs,
 		},
 		SafeSearchConf:      filtering.SafeSearchConfig{Enabled: gVals[1]},
@@ -434,7 +488,7 @@ func (r *zzC04Rig) load(initial []*Persistent) (err error) {
 
 // persistent builds a client the way home.jsonToClient does: fresh UID, SetIDs
 // on the identifier strings.
-func (r *zzC04Rig) persistent(name string, ids []string, own, bs bool, vals [4]bool, svcs []string) (p *Persistent, err error) {
+func (r *zzC04Rig) persistent(name string, ids []string, own, bs bool, vals [4]bool, svcs []string, sched string) (p *Persistent, err error) {
 	// As home.toPersistent / home.jsonToClient do: the client's safe-search
 	// engine exists only when its own safe search is enabled.
 	var ss filtering.SafeSearch
@@ -452,7 +506,7 @@ func (r *zzC04Rig) persistent(name string, ids []string, own, bs bool, vals [4]b
 		ParentalEnabled:       vals[3],
 		SafeSearch:            ss,
 		BlockedServices: &filtering.BlockedServices{
-			Schedule: schedule.EmptyWeekly(),
+			Schedule: zzC04Weekly(sched),
 			IDs:      append([]string{}, svcs...),
 		},
 	}
@@ -572,9 +626,10 @@ func zzC04NewRunner(tb testing.TB, uni *zzC04Uni, v zzC04Variant, dir string, ri
 	rn = &zzC04Runner{tb: tb, uni: uni, conc: c, abs: zzC04NewAbs(c, uni.IDs), nameI: map[string]int{}, idBit: map[zzC04ID]int{}}
 	rn.rng = rand.New(rand.NewSource(v.Seed))
 	g := zzC04Bits(v.Global)
-	if rn.rig = rigs[v.Global]; rn.rig == nil {
-		rn.rig = zzC04NewRig(tb, dir, g, []string{zzC04Services[0], zzC04Services[1]})
-		rigs[v.Global] = rn.rig
+	gs := c.mix(0, 89) % 2 // global schedule: none / window elsewhere in the week
+	if rn.rig = rigs[v.Global*2+gs]; rn.rig == nil {
+		rn.rig = zzC04NewRig(tb, dir, g, []string{zzC04Services[0], zzC04Services[1]}, []string{"none", "out"}[gs])
+		rigs[v.Global*2+gs] = rn.rig
 	}
 	rn.rig.ownVals, rn.rig.ownSvcs = map[string][4]bool{}, map[string][]string{}
 	for i := range uni.Names {
@@ -601,21 +656,15 @@ func (rn *zzC04Runner) build(nameIdx, mask, fl int) (p *Persistent, err error) {
 		if mask&(1<<i) == 0 {
 			continue
 		}
-		if id.K == "net" && rn.conc.v.NetHostBits {
-			// The same network, written with some host bits set.
-			p := rn.conc.prefix(id.X, id.Y)
-			b := p.Addr().AsSlice()
-			b[len(b)-1] |= byte(rn.conc.mix(nameIdx*977+i, 77)) & byte(0xff>>uint(id.Y))
-			a, _ := netip.AddrFromSlice(b)
-			ids = append(ids, netip.PrefixFrom(a, p.Bits()).String())
-
-			continue
-		}
-		ids = append(ids, rn.conc.storedString(id, nameIdx))
+		ids = append(ids, rn.conc.storedStrings(id, nameIdx)...)
 	}
 	rn.rng.Shuffle(len(ids), func(i, j int) { ids[i], ids[j] = ids[j], ids[i] })
 
-	return rn.rig.persistent(name, ids, fl&2 != 0, fl&1 != 0, rn.rig.ownVals[name], rn.rig.ownSvcs[name])
+	// No request of a tour falls into a pause window: the client has no
+	// schedule, or one whose window is elsewhere in the week.
+	sched := []string{"none", "out"}[rn.conc.mix(nameIdx, 88)%2]
+
+	return rn.rig.persistent(name, ids, fl&2 != 0, fl&1 != 0, rn.rig.ownVals[name], rn.rig.ownSvcs[name], sched)
 }
 
 // code abstracts a returned client to 4*mask+flags (-1: foreign identifier).
@@ -1092,8 +1141,10 @@ func zzC04RunChunk(tb testing.TB, uni *zzC04Uni, states []*zzC04State, c *zzC04C
 type zzC04SetVec struct {
 	G    [4]bool     `json:"g"`
 	Gs   []string    `json:"gs"`
+	Gp   string      `json:"gp"` // global schedule now: none | in
 	V    [4]bool     `json:"v"`
 	Cs   []string    `json:"cs"`
+	Cp   string      `json:"cp"` // the client's schedule now: none | in | out
 	Own  bool        `json:"own"`
 	Bs   bool        `json:"bs"`
 	Hit  zzC04SetEff `json:"hit"`
@@ -1131,16 +1182,16 @@ func TestZZVerifC04Settings(t *testing.T) {
 			t.Fatalf("bad vector: %v", err)
 		}
 		n++
-		key := fmt.Sprint(v.G, v.Gs)
+		key := fmt.Sprint(v.G, v.Gs, v.Gp)
 		rig := rigs[key]
 		if rig == nil {
-			rig = zzC04NewRig(t, dir, v.G, zzC04Svcs(v.Gs))
+			rig = zzC04NewRig(t, dir, v.G, zzC04Svcs(v.Gs), v.Gp)
 			rigs[key] = rig
 		}
 		rig.reset(t)
 		c := zzC04Conc{v: zzC04Variant{MacLen: 6, V6: rng.Intn(3) == 0, Seed: rng.Int63(), Names: rng.Intn(3), W: 4}}
 		name := c.name(1)
-		p, err := rig.persistent(name, []string{c.addr(5).String()}, v.Own, v.Bs, v.V, zzC04Svcs(v.Cs))
+		p, err := rig.persistent(name, []string{c.addr(5).String()}, v.Own, v.Bs, v.V, zzC04Svcs(v.Cs), v.Cp)
 		if err != nil {
 			t.Fatalf("SetIDs: %v", err)
 		}
@@ -1173,8 +1224,8 @@ func TestZZVerifC04Settings(t *testing.T) {
 			if what != "" {
 				bad++
 				w.put(map[string]any{"t": "bad", "vec": v, "req": []string{"hit", "miss"}[i], "what": what, "got": e,
-					"concrete": fmt.Sprintf("global %v %v; client %q %s own=%v bs=%v vals=%v svcs=%v; request from %s",
-						v.G, zzC04Svcs(v.Gs), name, c.addr(5), v.Own, v.Bs, v.V, zzC04Svcs(v.Cs), addr)})
+					"concrete": fmt.Sprintf("global %v %v schedule=%s; client %q %s own=%v bs=%v vals=%v svcs=%v schedule=%s; request from %s",
+						v.G, zzC04Svcs(v.Gs), v.Gp, name, c.addr(5), v.Own, v.Bs, v.V, zzC04Svcs(v.Cs), v.Cp, addr)})
 			}
 		}
 	})
@@ -1190,6 +1241,12 @@ type zzC04TClient struct {
 	Bs   bool      `json:"bs"`
 	Vals [4]bool   `json:"vals"`
 	Svcs []string  `json:"svcs"`
+
+	// Pause: requests arrive inside the pause window of this
+	// blocked-services schedule.
+	Pause bool `json:"pause"`
+
+	sched string // how the harness builds the schedule: none | in | out
 }
 
 type zzC04TLookup struct {
@@ -1319,10 +1376,14 @@ func zzC04OneTrace(tb testing.TB, w *zzWriter, tr, nOps int, seed int64, dir str
 	for _, i := range rng.Perm(len(zzC04Services))[:rng.Intn(3)] {
 		gSvcs = append(gSvcs, zzC04Services[i])
 	}
-	rig := zzC04NewRig(tb, dir, zzC04Bits(v.Global), gSvcs)
+	// Blocked-services schedules: none, pausing now (a quarter), or with a
+	// window elsewhere in the week.
+	randSched := func() (kind string) { return []string{"none", "in", "out", "none"}[rng.Intn(4)] }
+	gSched := randSched()
+	rig := zzC04NewRig(tb, dir, zzC04Bits(v.Global), gSvcs, gSched)
 	defer rig.df.Close()
 
-	w.put(&zzC04TLine{Op: "reset", Trace: tr, Cs: []*zzC04TClient{}, V: &v, G: &zzC04TClient{Vals: rig.gVals, Svcs: gSvcs, IDs: []zzC04ID{}}, Q: []zzC04TLookup{}})
+	w.put(&zzC04TLine{Op: "reset", Trace: tr, Cs: []*zzC04TClient{}, V: &v, G: &zzC04TClient{Vals: rig.gVals, Svcs: gSvcs, IDs: []zzC04ID{}, Pause: gSched == "in"}, Q: []zzC04TLookup{}})
 
 	nameNo := map[string]int{}
 	for i, n := range names {
@@ -1331,7 +1392,7 @@ func zzC04OneTrace(tb testing.TB, w *zzWriter, tr, nOps int, seed int64, dir str
 	// stored renders the identifiers as the client called name registers them.
 	stored := func(name string, tids []zzC04ID) (ids []string) {
 		for _, id := range tids {
-			ids = append(ids, c.storedString(id, nameNo[name]))
+			ids = append(ids, c.storedStrings(id, nameNo[name])...)
 		}
 
 		return ids
@@ -1345,8 +1406,10 @@ func zzC04OneTrace(tb testing.TB, w *zzWriter, tr, nOps int, seed int64, dir str
 		for _, i := range rng.Perm(len(zzC04Services))[:rng.Intn(3)] {
 			tc.Svcs = append(tc.Svcs, zzC04Services[i])
 		}
+		tc.sched = randSched()
+		tc.Pause = tc.sched == "in"
 		ids := stored(tc.Name, tc.IDs)
-		p, err := rig.persistent(tc.Name, ids, tc.Own, tc.Bs, tc.Vals, tc.Svcs)
+		p, err := rig.persistent(tc.Name, ids, tc.Own, tc.Bs, tc.Vals, tc.Svcs, tc.sched)
 		if err != nil {
 			tb.Fatalf("SetIDs(%v): %v", ids, err)
 		}
@@ -1507,12 +1570,12 @@ func zzC04OneTrace(tb testing.TB, w *zzWriter, tr, nOps int, seed int64, dir str
 						if !uniq[id] {
 							uniq[id] = true
 							dedup = append(dedup, id)
-							ids = append(ids, c.storedString(id, nameNo[tc.Name]))
+							ids = append(ids, c.storedStrings(id, nameNo[tc.Name])...)
 						}
 					}
 					tc.IDs = dedup
 					var err error
-					if p, err = rig.persistent(tc.Name, ids, tc.Own, tc.Bs, tc.Vals, tc.Svcs); err != nil {
+					if p, err = rig.persistent(tc.Name, ids, tc.Own, tc.Bs, tc.Vals, tc.Svcs, tc.sched); err != nil {
 						tb.Fatalf("SetIDs(%v): %v", ids, err)
 					}
 				}
